@@ -232,6 +232,15 @@ class Prog:
     def spin(self, var, n):
         self.src.append("let %s = 0 while %s < %d { %s += 1 }" % (var, var, n, var))
 
+    def burst(self, var, k, err=False):
+        """One print of 16 * 2^k bytes built by doubling (a single large write right before the eval ends)."""
+        self.src.append('let %s = "0123456789abcdef" let n%s = 0 while n%s < %d { %s = %s ^ %s n%s += 1 } %s(%s)'
+                        % (var, var, var, k, var, var, var, var, "eprint" if err else "print", var))
+        if err:
+            self.err += "0123456789abcdef" * (2 ** k)
+        else:
+            self.out += "0123456789abcdef" * (2 ** k)
+
     def code(self):
         return " ".join(self.src)
 
@@ -252,6 +261,9 @@ def gen_prog(rng, tag, heavy):
             pr.e(w)
         if heavy and rng.random() < 0.6:
             pr.spin("v%s_%d" % (tag.replace(".", "_"), i), rng.choice([2000, 15000, 40000, 70000]))
+    if rng.random() < 0.2:
+        # a large last burst (16 KiB .. 512 KiB): everything printed must arrive before `done`
+        pr.burst("b%s" % tag.replace(".", "_"), rng.choice([10, 12, 13, 14, 15]), err=rng.random() < 0.3)
     pr.src.append("%d" % rng.randint(1, 999))
     return pr
 
